@@ -160,6 +160,15 @@ def main(tier):
     pipecheck.run_sched_replay(ck, sp, ssim)
     jobs, out = trace_jobs(ck, tier, rng)
     pipecheck.run_traces(ck, jobs, out)
+    # the repository's own test driver (TESTING/p?drive.c, unmodified) as a trace generator: every factorization it
+    # performs with 4 threads is recorded through the hooks and must be a behaviour of SluPipe
+    ex = os.path.join(build.REPO, "EXAMPLE")
+    if tier == "quick":
+        runs = [("d", ["-t", "LA", "-n", "10", "-s", "2", "-l", "0", "-p", "4"])]
+    else:
+        runs = [(p, ["-t", "LA", "-n", n, "-s", "2", "-l", l, "-p", "4"]) for p in "dszc" for n in ("10", "19") for l in ("0", "100000000")]
+        runs += [(p, ["-t", "SP", "-s", "2", "-l", "0", "-p", "4"], os.path.join(ex, "g10" if p in "ds" else "cg20.cua")) for p in "dszc"]
+    pipecheck.run_repo_tests(ck, runs, perturb=20)
     # the self-test needs a trace that still exists: record one more
     stjobs = [dict(jobs[-1], id="st", out=os.path.join(out, "st.ndjson"))]
     pipe.run_jobs(stjobs, out, shards=1)
